@@ -138,7 +138,7 @@ def run(ctx):
     cov = {
         "evaluations": total_prefixes, "distinct_nontrivial": total_prefixes,
         "traces_validated_against_impl": len(sample_cases) - len(failing),
-        "rule": f"every cut position 0..len-1 of each generated instance's encoding (all cuts up to {max_exhaustive} bytes, "
+        "rule": f"every cut position 0..len-1 of each generated instance's encoding ([plus 64 KiB - 3 MiB bytes/records payloads as the last field of non-flexible classes, implementation side only] all cuts up to {max_exhaustive} bytes, "
                 "128 boundary + 64 random cuts beyond) through a source object that only supports read(n); every "
                 "(instance, cut) pair is distinct and non-trivial",
         "instances": n_inst, "big_field_instances": n_big, "classes": n_schema, "model_sample": len(sample_cases),
